@@ -41,7 +41,67 @@ namespace mon
    template< typename Rule > struct ctlA : std::conditional_t< ( MON_CTRL & 2 ) != 0, control_impl_unwind< Rule, 0, ( MON_CTRL & 1 ) != 0 >, control_impl< Rule, 0, ( MON_CTRL & 1 ) != 0, false > > {};
    template< typename Rule > struct ctlB : std::conditional_t< ( MON_CTRL & 2 ) != 0, control_impl_unwind< Rule, 1, ( MON_CTRL & 1 ) != 0 >, control_impl< Rule, 1, ( MON_CTRL & 1 ) != 0, false > > {};
 
-#if defined( MON_PLAIN )
+#if defined( MON_TREE )
+}  // namespace mon
+#include <tao/pegtl/contrib/parse_tree.hpp>
+namespace mon
+{
+   constexpr int sel_of_vid_c( int vid ) { return vid < 0 ? 0 : MON_SELS[ vid ]; }
+   template< int K > struct sel_impl : std::false_type {};
+   template<> struct sel_impl< 1 > : pegtl::parse_tree::store_content {};
+   template<> struct sel_impl< 2 > : pegtl::parse_tree::remove_content {};
+   template<> struct sel_impl< 3 > : pegtl::parse_tree::fold_one {};
+   template<> struct sel_impl< 4 > : pegtl::parse_tree::discard_empty {};
+   template< typename Rule > struct selT : sel_impl< sel_of_vid_c( rid< Rule >::v ) > {};
+
+   inline void flatten( const pegtl::parse_tree::node& n, int depth, const char* base, const char* end, const char* srcdata, std::vector< tnode >& out )
+   {
+      for( const auto& c : n.children ) {
+         tnode t;
+         t.type = c->type;
+         t.depth = depth;
+         t.has_content = c->has_content();
+         t.bo = std::size_t( c->m_begin.data - base );
+         t.eo = t.has_content ? std::size_t( c->m_end.data - base ) : std::size_t( -1 );
+         // a node created on a rematch sub-input keeps a string_view into that input's (dead) source: do not touch it
+         t.source_foreign = ( c->source.data() != srcdata );
+         t.bbyte = c->m_begin.byte; t.bline = c->m_begin.line; t.bcol = c->m_begin.column;
+         t.ebyte = t.eline = t.ecol = 0;
+         if( t.has_content ) { t.ebyte = c->m_end.byte; t.eline = c->m_end.line; t.ecol = c->m_end.column; }
+         if( !t.source_foreign ) {
+            const auto b = c->begin();
+            t.bbyte = b.byte; t.bline = b.line; t.bcol = b.column;
+            if( t.has_content ) { const auto e = c->end(); t.ebyte = e.byte; t.eline = e.line; t.ecol = e.column; }
+         }
+         t.content_ok = true;
+         if( t.has_content ) {
+            const bool inside = c->m_begin.data >= base && c->m_end.data <= end && c->m_begin.data <= c->m_end.data;
+            t.content_ok = inside;   // content is the input bytes [ bo, eo ) iff both pointers lie inside the input
+         }
+         out.push_back( t );
+         flatten( *c, depth + 1, base, end, srcdata, out );
+      }
+   }
+
+   template< typename G >
+   void run_entry( const runreq& rq, runres& rs )
+   {
+      input_t in( rq.b, rq.e, "x" );
+      try {
+         const auto root = pegtl::parse_tree::parse< G, selT, actA, ctlA >( in, RC.s0 );
+         rs.st = root ? 1 : 0;
+         rs.tree_null = !root;
+         rs.end_byte = in.byte();
+         rs.end_ptr = in.current();
+         if( root ) flatten( *root, 0, rq.b, rq.e, in.source().data(), rs.tree );
+      }
+      catch( ... ) {
+         rs.tree_null = true;
+         classify_current_exception( rs );
+      }
+   }
+   inline const config CONFIG = { "tree", MON_VARIANT, MON_LAZY != 0, MON_EOL, MON_CTRL, false, true, MON_SELV };
+#elif defined( MON_PLAIN )
    template< typename G >
    void run_entry( const runreq& rq, runres& rs )
    {
